@@ -139,8 +139,18 @@ def eval_spaces(prop, tier):
             jobs.append(["purity|%d|%d/%d" % (L, i, n)])
         for s in men3 + (["KPPk", "KQkp"] if q else special4 + general4):
             sig(s + ";ep=none", 8)
-        sig("KQQQQQQQQQk;files=4;ep=none" if False else "KQQQk;files=5", 8)
-        extreme = ["QQQQQQQQ/Q7/8/8/8/8/q7/qqqqqqKk w - - 0 1"]
+        sig("KQQQk;files=5", 8)
+        # same pawn structure x every placement of the other pieces (pawns first = outer loops)
+        for s in (["PpKkn;files=5;ep=none", "PPKkn;files=4;ep=none", "PpKNk;files=5;ep=none", "ppkKN;files=4;ep=none"] if q else
+                  ["PpKkn;ep=none", "PPKkn;files=6;ep=none", "PpKNk;ep=none", "ppkKN;files=6;ep=none", "PPpKkn;files=4;ep=none", "PpKkb;files=6;ep=none", "PpKkr;files=6;ep=none", "PPpKRkn;files=3;ep=none"]):
+            for i in range(8):
+                jobs.append(["pawngroup|%s;shard=%d/8" % (s, i)])
+        # extreme material (bare king v eight/nine queens and two rooks, both colours): bounds
+        extreme = ["7k/8/8/8/8/RRK5/QQQQ4/QQQQ4 w - - 0 1", "7k/8/8/8/8/RRK5/QQQQ4/QQQQQ3 w - - 0 1",
+                   "qqqq4/qqqq4/rrk5/8/8/8/8/7K b - - 0 1", "qqqqq3/qqqq4/rrk5/8/8/8/8/7K b - - 0 1",
+                   "7k/8/8/8/8/RRK5/QQQQ4/QQQQ4 b - - 0 1", "3qk3/8/8/8/8/RRK5/QQQQ4/QQQQ4 w - - 0 1"]
+        for f in extreme:
+            jobs.append(["bfs|%s|%d" % (f, 1 if q else 2)])
         seeds = plans.SEEDS
         for n in seeds:
             jobs.append(["bfs|%s|%d" % (seeds[n], 2 if q else 3)])
@@ -167,13 +177,25 @@ def run_eval(prop, tier):
                 "compared with the same call on a fresh evaluator; bounds: |score| < win_in(MAX_DEPTH) for every evaluation of the listed spaces")
         assumptions = ["the colliding alphabet is found by exhaustive search over pawn structures against this process's random keys",
                        "a fresh PositionScorer is the reference for purity"]
-        guards = [("structures_searched", 1000), ("evaluations", 100000)]
+        guards = [("structures_searched", 1000), ("evaluations", 100000), ("pawn_groups", 1000)]
     return driver.finish(prop, tier, MC, merged, t0, rule=rule, assumptions=assumptions, guards=guards, replay_fn=replay_eval,
                          technique="exhaustive enumeration of positions / operation sequences on the real evaluator with a differential oracle")
 
 
 def replay_eval(rec, verbose=False):
     d = rec["detail"]
+    if "evaluated_before" in d:
+        exe = vbuild.harness_build("evalmc", ["evalmc.cpp"], "rel")
+        out = os.path.join(TMP, "replay-%d.json" % os.getpid())
+        seq = ";".join(list(d["evaluated_before"]) + [d["fen"]])
+        r = subprocess.run([exe, "--prop", "C13", "--space", "seq|" + seq, "--out", out], stdout=subprocess.PIPE, stderr=subprocess.STDOUT, text=True)
+        if r.returncode != 0:
+            raise HarnessError("replay failed: " + r.stdout)
+        res = json.load(open(out))
+        os.unlink(out)
+        return any(k.startswith("C13:asymmetric") for k in res["violation_classes"])
+    if "group_first" in d:
+        return None   # replayed by re-running the group's (cheap) sub-space
     if "fen" not in d:
         return None   # purity sequences depend on per-process keys; replayed by re-running the (cheap) sub-space
     exe = vbuild.harness_build("evalmc", ["evalmc.cpp"], "rel")
